@@ -558,7 +558,51 @@ def bounded_trim(shard):
     return run
 
 
+_fam_envs = {}
+
+
+def render_case_family(ids, setting, fam):
+    """the extended tag set written with the delimiters of one family"""
+    kw = RF.delimiter_families()[fam + "/trim=0,lstrip=0"]
+    key = (fam, setting)
+    if key not in _fam_envs:
+        _fam_envs[key] = (jinja2.Environment(**dict(kw, trim_blocks=setting[0], lstrip_blocks=setting[1], cache_size=0)),
+                          X.tag_variants(X.delims_of(kw), extended=True))
+    env, tags = _fam_envs[key]
+    parts = X.skeleton(*ids, tags=tags)
+    src = X.source_of(parts)
+    want = X.reference_render(X.working_parts(parts), setting[0], setting[1])
+    try:
+        got = env.from_string(src).render(v="V")
+    except Exception as ex:  # noqa
+        got = f"<{type(ex).__name__}: {ex}>"
+    return src, got, want
+
+
+def bounded_trim_family(fam):
+    def run(task, tier, seed):
+        t0 = time.time()
+        n, out = 0, []
+        for ids in X.family_sample(seed):
+            for setting in X.SETTINGS:
+                src, got, want = render_case_family(ids, setting, fam)
+                n += 1
+                if got != want and not out:
+                    out.append(Res(f"C12.bounded.trim[{fam}].case", "refuted", "native", time.time() - t0,
+                                   f"{fam} delimiters, {src!r} trim_blocks={setting[0]} lstrip_blocks={setting[1]}: rendered {got!r}, documented rules give {want!r}",
+                                   "bounded", {"family": fam, "tags": list(ids[0]), "seps": list(ids[1]), "trim_blocks": setting[0], "lstrip_blocks": setting[1]}))
+        task.stats = {"renders": n}
+        if not out:
+            out.append(Res(f"C12.bounded.trim[{fam}]", "bounded-ok", "native", time.time() - t0,
+                           f"{n} renders of the real Environment ({fam} delimiters, extended tag set) equal the reference trimming function", "bounded"))
+        return out
+    return run
+
+
 def replay_trim(w):
+    if w.get("family"):
+        src, got, want = render_case_family((tuple(w["tags"]), tuple(w["seps"])), (w["trim_blocks"], w["lstrip_blocks"]), w["family"])
+        return (got != want, f"{w['family']} delimiters, {src!r} trim_blocks={w['trim_blocks']} lstrip_blocks={w['lstrip_blocks']}: rendered {got!r}, documented rules give {want!r}")
     src, got, want = render_case((tuple(w["tags"]), tuple(w["seps"])), (w["trim_blocks"], w["lstrip_blocks"]))
     return (got != want, f"{src!r} trim_blocks={w['trim_blocks']} lstrip_blocks={w['lstrip_blocks']}: rendered {got!r}, documented rules give {want!r}")
 
@@ -568,6 +612,10 @@ def bounded_tasks():
     for k in range(NSHARDS):
         t = FnTask(PROP, f"C12.bounded.trim[{k}]", bounded_trim(k), kind="bounded", replay_fn=replay_trim)
         t.bound_text = X.CORPUS_BOUND + f" (shard {k} of {NSHARDS})"
+        ts.append(t)
+    for fam in ("default", "asp", "dollar", "shared"):
+        t = FnTask(PROP, f"C12.bounded.trim[{fam}]", bounded_trim_family(fam), kind="bounded", replay_fn=replay_trim)
+        t.bound_text = X.FAMILY_BOUND + f" ({fam} delimiters)"
         ts.append(t)
     return ts
 
